@@ -148,6 +148,7 @@ def generate(rng, i, tier):
         "seed": rng.getrandbits(32),
         "policy": pol,
         "double": double,
+        "factory": (not managed) and rng.random() < 0.25,
         "deco": "empty_term" if rng.random() < 0.2 else None,
         "pre_shared": pre_shared,
         "via_import": via_import,
@@ -187,6 +188,8 @@ def reductions(sc):
         yield with_(sc, or_single=False)
     if sc.get("double"):
         yield with_(sc, double=False)
+    if sc.get("factory"):
+        yield with_(sc, factory=False)
     for j, F in enumerate(sc["planted"]):
         for l in F:
             c = with_(sc)
@@ -381,7 +384,13 @@ def execute(sc):
                 out.probe("an earlier CsvPath sharing the Config object ran with a contradicting override")
                 extfuncs.arm(plan=plan)
             with ops.quiet():
-                cp = CsvPath(config=cfg)
+                if sc.get("factory") and sc["policy"] and not sc.get("pre_shared"):
+                    # a CsvPath handed out by the public CsvPaths.csvpath() factory and run directly (it knows its CsvPaths,
+                    # but no Result collects for it); the policy is the one in config.ini
+                    cp = ops.new_csvpaths().csvpath()
+                    out.probe("CsvPath from the CsvPaths.csvpath() factory run directly")
+                else:
+                    cp = CsvPath(config=cfg)
             tp = TestPrinter()
             cp.add_printer(tp)
             text = member_text(sc, 0, "src/f.csv")
@@ -526,6 +535,7 @@ def execute(sc):
         out.probe("erroring component pulled in with import()", bool(sc.get("via_import")))
         out.probe("logic-mode OR with the erroring component alone", bool(sc.get("or_single")))
         out.probe("two components raised on the same line", False)
+        out.probe("CsvPath from the CsvPaths.csvpath() factory run directly", False)
         out.probe("an earlier CsvPath sharing the Config object ran with a contradicting override", False)
         out.probe("stop()/skip() later on an offending line", bool(sc.get("tail")) and any(sc["tail"]["line"] in F for F in sc["planted"]))
         out.nontrivial = evaluated_any
